@@ -1,13 +1,7 @@
-"""Thorough tier: self-validation of the rules against AST-computed mutants of the current
-tree (DESIGN 2.6 / 7).  Filled in per property in sa/mutants/; a property without a
-catalogue yet runs the quick rules only."""
-import importlib
+"""Thorough tier: quick rules + self-validation of those rules against mutants of the current tree
+(sa/mutants/engine.py, catalogue in sa/mutants/catalogue.py)."""
 
 
 def run(prop, ctx):
-    try:
-        mod = importlib.import_module('sa.mutants.' + prop.lower())
-    except ModuleNotFoundError:
-        return {'self_validation': 'no mutant catalogue for this property yet'}
     from .mutants import engine
-    return engine.run(prop, mod, ctx)
+    return engine.run(prop, None, ctx)
